@@ -200,7 +200,10 @@ fn btc_catalogue() -> Vec<Vec<u8>> {
         let mut s = vec![if m == 0 { 0x00 } else { 0x50 + m }];
         for _ in 0..n { s.push(33); s.extend(rng.bytes(33)); }
         s.push(if decl == 0 { 0x00 } else { 0x50 + (decl % 17) }); s.push(0xae); t.push(s); } } }
-    for txt in [&b"hello"[..], &[0x41; 75][..], &[0x42; 76][..], &[0x43; 80][..], &[0x44; 255][..], &[0x45; 300][..], "\u{4e16}\u{754c}".as_bytes(), &[0xff, 0xfe][..], &[][..]] {
+    // every opcode byte in the n position of `OP_m <k keys> <n> OP_CHECKMULTISIG` (k = 1..=3, m = 1)
+    for kk in 1..=3usize { for nop in 0..=255u8 { let mut s = vec![0x51]; for _ in 0..kk { s.push(33); s.extend(rng.bytes(33)); } s.push(nop); s.push(0xae); t.push(s); } }
+    for txt in [&b"hello"[..], &[0x41; 75][..], &[0x42; 76][..], &[0x43; 80][..], &[0x44; 255][..], &[0x45; 300][..], "\u{4e16}\u{754c}".as_bytes(), &[0xff, 0xfe][..], &[][..],
+                &b"hi\xe2\x82"[..], &b"ok\xf0\x9f\x98"[..], &b"a\xc3"[..], &b"hi\xe2\x82A"[..], &b"\xe2\x82\xac ok"[..]] {
         for f in forms_for(txt.len()) { t.push([vec![0x6a], push(txt, f)].concat()); }
     }
     t.push(vec![0x6a]); t.push(vec![0x6a, 0x01, 0x41, 0x01, 0x42]); t.push(vec![0x6a, 0x51]); t.push(vec![0x6a, 0x4c]); t.push(vec![0x6a, 0x4c, 0x05, 0x41]);
